@@ -8,7 +8,8 @@
              | (12 (e..) d) MultistageDistributor | (13 m b) TieBreaking | (14 p) PartyListEvaluator closed
              | (15 p le c?) open | (16 e) VotingSystem | (17 (e..) (q..) d) UnusedVotesDistributor
              | (18 c e) AdjustedSeatCount(calculator c) | (19 pe e) AdjustedSeatCount(AllowOverhang(pe))
-             | (20 pe e fuel) AdjustedSeatCount(LevelOverhang(pe)) ;  a = (0) | (1 n) | (2 dict-value)
+             | (20 pe e fuel) AdjustedSeatCount(LevelOverhang(pe)) | (21 e a pre) ByConstituency with a preselector ;
+             a = (0) | (1 n) | (2 dict-value)
    kwrec   : six options  () | (v)   in the order n_seats prev_gains max_seats party_lists list_votes candidate_list
    oracle  : leaf table ((l votes (opt..) result)..), converter table ((c value result)..);
              result = (0 v) | (1 code)
@@ -151,6 +152,8 @@ Fixpoint dec_ev (s : sx) : option ev :=
   | L [A 19; pe; e] => match dec_ev pe, dec_ev e with Some p', Some e' => Some (AdjAllow p' e') | _, _ => None end
   | L [A 20; pe; e; f] => match dec_ev pe, dec_ev e, as_nat f with
                           | Some p', Some e', Some f' => Some (AdjLevel p' e' f') | _, _, _ => None end
+  | L [A 21; e; a; pre] => match dec_ev e, dec_aspec a, dec_ev pre with
+                           | Some e', Some a', Some p' => Some (ByConsP e' a' p') | _, _, _ => None end
   | _ => None
   end.
 
@@ -231,7 +234,7 @@ Fixpoint node_info (t : ev) : list sx :=
         | PreConv _ e | PostConv e _ | Fixed e _ | RemApp e | PreApp e _ | ByCons e _ | ByPartyS e | PListC e
         | VSys e | AdjLeaf _ e => node_info e
         | Cond a b _ | ByConsD a b | PreAppD a b | ByParty a b | TieBr a b | PListO a b _
-        | AdjAllow a b | AdjLevel a b _ => node_info a ++ node_info b
+        | AdjAllow a b | AdjLevel a b _ | ByConsP a _ b => node_info a ++ node_info b
         | Multi rs _ | Unused rs _ _ => flat_map node_info rs
         end.
 
